@@ -387,4 +387,131 @@ theorem insClear_refines_aux {st : RStore} {a : AbsState} (hc : Consistent st) (
     show QPC.done (.count _) = _
     rw [clear_count hc h before]
 
+/-! ## probe queue: `enqueue`, `Count` -/
+
+theorem enqueue_drop (a : AbsState) (clock : Int) (p : Probe) (af bf : Int) (h : af ≥ bf) :
+    a.enqueue clock p (some af) (some bf) = a := by
+  simp [AbsState.enqueue, h]
+
+theorem enqueue_keep (a : AbsState) (clock : Int) (p : Probe) (after before : GoTime)
+    (h : (QOp.enqueue p after before).begin = .start) :
+    a.enqueue clock p after before =
+      { a with queue := a.queue ++ [⟨a.nextId, p, readyOf after clock, before⟩], nextId := a.nextId + 1 } := by
+  cases after with
+  | none => cases before <;> simp [AbsState.enqueue, readyOf]
+  | some af =>
+    cases before with
+    | none => simp [AbsState.enqueue, readyOf]
+    | some bf =>
+      have hlt : ¬ af ≥ bf := by
+        intro hge
+        simp [QOp.begin, hge] at h
+      simp [AbsState.enqueue, readyOf, hlt]
+
+/-- `begin` of an enqueue is `start` unless it is dropped -/
+theorem enqueue_begin_cases (p : Probe) (after before : GoTime) :
+    (QOp.enqueue p after before).begin = .start ∨
+    ∃ af bf : Int, after = some af ∧ before = some bf ∧ af ≥ bf := by
+  cases after with
+  | none => left; rfl
+  | some af =>
+    cases before with
+    | none => left; rfl
+    | some bf =>
+      by_cases h : af ≥ bf
+      · exact Or.inr ⟨af, bf, rfl, rfl, h⟩
+      · left; simp [QOp.begin, h]
+
+theorem relQ_enqueueBatch {st : RStore} {a : AbsState} (h : RelQ st a) (p : Probe) (before : GoTime) (r : Int) :
+    RelQ (st.enqueueBatch a.nextId p before r)
+      { a with queue := a.queue ++ [⟨a.nextId, p, r, before⟩], nextId := a.nextId + 1 } := by
+  have hget1 : ∀ k : Nat, (st.enqueueBatch a.nextId p before r).pItems[k]? =
+      if a.nextId = k then some (p, before) else st.pItems[k]? := by
+    intro k
+    show (st.pItems.insert a.nextId (p, before))[k]? = _
+    rw [ExtTreeMap.getElem?_insert]; simp only [compare_eq_iff_eq]
+  have hget2 : ∀ k : Nat, (st.enqueueBatch a.nextId p before r).pQueue[k]? =
+      if a.nextId = k then some r else st.pQueue[k]? := by
+    intro k
+    show (st.pQueue.insert a.nextId r)[k]? = _
+    rw [ExtTreeMap.getElem?_insert]; simp only [compare_eq_iff_eq]
+  apply RelQ.of_mem
+  · show ((a.queue ++ [(⟨a.nextId, p, r, before⟩ : QItem)]).map (·.id)).Nodup
+    rw [List.map_append, List.nodup_append]
+    refine ⟨h.nodup, by simp, ?_⟩
+    intro x hx y hy
+    obtain ⟨x', hx', rfl⟩ := List.mem_map.1 hx
+    have := h.lt hx'
+    simp only [List.map_cons, List.map_nil, List.mem_singleton] at hy
+    omega
+  · intro x
+    show x ∈ a.queue ++ [(⟨a.nextId, p, r, before⟩ : QItem)] ↔ _
+    rw [List.mem_append, List.mem_singleton, hget1, hget2]
+    by_cases hx : a.nextId = x.id
+    · rw [if_pos hx, if_pos hx]
+      constructor
+      · rintro (hq | rfl)
+        · exact absurd (h.lt hq) (by omega)
+        · exact ⟨rfl, rfl⟩
+      · intro ⟨h1, h2⟩
+        right
+        obtain ⟨xi, xp, xr, xe⟩ := x
+        simp only [Option.some.injEq, Prod.mk.injEq] at h1 h2
+        simp only at hx
+        obtain ⟨rfl, rfl⟩ := h1
+        subst h2; subst hx
+        rfl
+    · rw [if_neg hx, if_neg hx, ← h.mem_iff x]
+      constructor
+      · rintro (hq | rfl)
+        · exact hq
+        · exact absurd rfl hx
+      · exact Or.inl
+  · intro id hid
+    show id < a.nextId + 1
+    have : id ∈ st.pItems.insert a.nextId (p, before) := hid
+    rw [ExtTreeMap.mem_insert] at this
+    rcases this with h1 | h1
+    · simp only [compare_eq_iff_eq] at h1; omega
+    · have := h.ltItems id h1; omega
+  · intro id hid
+    show id < a.nextId + 1
+    have : id ∈ st.pQueue.insert a.nextId r := hid
+    rw [ExtTreeMap.mem_insert] at this
+    rcases this with h1 | h1
+    · simp only [compare_eq_iff_eq] at h1; omega
+    · have := h.ltQueue id h1; omega
+
+/-- `enqueue` (`HSET` + `ZADD`, one batch; none when dropped) -/
+theorem enqueue_refines_aux {st : RStore} {a : AbsState} (h : RelQ st a) (clock : Int) (fresh : Nat) (hfr : fresh = a.nextId)
+    (p : Probe) (after before : GoTime) {fuel : Nat} (hf : 1 ≤ fuel) :
+    (runQ st clock fresh (.enqueue p after before) (QOp.enqueue p after before).begin fuel).2.1 = .done .unit ∧
+    RelQ (runQ st clock fresh (.enqueue p after before) (QOp.enqueue p after before).begin fuel).1 (a.enqueue clock p after before) ∧
+    (runQ st clock fresh (.enqueue p after before) (QOp.enqueue p after before).begin fuel).2.2 = (a.enqueue clock p after before).nextId := by
+  rcases enqueue_begin_cases p after before with hb | ⟨af, bf, rfl, rfl, hge⟩
+  · rw [runQ_enqueue _ _ _ _ _ _ hb hf, enqueue_keep _ _ _ _ _ hb]
+    subst hfr
+    exact ⟨rfl, relQ_enqueueBatch h p before _, rfl⟩
+  · rw [runQ_enqueue_drop _ _ _ _ _ _ hge, enqueue_drop _ _ _ _ _ hge]
+    exact ⟨rfl, h, hfr⟩
+
+/-- `Count` = `ZCARD probes:queue` -/
+theorem qCount_refines_aux {st : RStore} {a : AbsState} (hc : Consistent st) (h : RelQ st a) : st.pQueue.size = a.qCount := by
+  unfold AbsState.qCount
+  have hperm : (a.queue.map (·.id)).Perm (st.pQueue.toList.map (·.1)) := by
+    refine (List.perm_ext_iff_of_nodup h.nodup (nodup_keys_toList _)).2 ?_
+    intro id
+    rw [mem_keys_toList]
+    constructor
+    · intro hid
+      obtain ⟨x, hx, rfl⟩ := List.mem_map.1 hid
+      exact mem_iff_getElem?_some.2 ⟨_, ((h.mem_iff x).1 hx).2⟩
+    · intro hid
+      obtain ⟨r, hr⟩ := mem_iff_getElem?_some.1 hid
+      obtain ⟨pe, hpe⟩ := mem_iff_getElem?_some.1 ((hc.prb id).1 hid)
+      exact List.mem_map.2 ⟨⟨id, pe.1, r, pe.2⟩, (h.mem_iff _).2 ⟨hpe, hr⟩, rfl⟩
+  have := hperm.length_eq
+  rw [List.length_map, List.length_map, ExtTreeMap.length_toList] at this
+  exact this.symm
+
 end Swat4
